@@ -93,6 +93,7 @@ PROPS["C18"] = {"units": [
     rapid_unit("dpipe", "bridge", "^TestC18Dpipe$", 5000, 16 * 100000),
     rapid_unit("dpipe-full", "bridge", "^TestC18DpipeFull$", 300, 16 * 3000, shrinktime="2s"),
     rapid_unit("bridge-concurrent", "bridge", "^TestC18BridgeConcurrent$", 200, 16 * 2000, shrinktime="3s"),
+    rapid_unit("bridge-tick-vs-reorder", "bridge", "^TestC18BridgeTickVsReorder$", 200, 16 * 2000, shrinktime="3s"),
 ]}
 
 PROPS["C16"] = {"units": [
